@@ -5,6 +5,7 @@
 \* alone, under dedup / erasure, joined (both sides) with leaves repeating their keys, one more level (9 unary nodes, and_props).
 \* Every collection is replayed under the 6 key storage forms of Props.tla (KeyForms) with lookup keys separate / from the same buffer / prefix slices of enumerated keys.
 \* Map carriers (BTreeMap / HashMap, key type &str / String / Str by key storage form) over keys of mixed lengths whose byte order and length-first order differ.
+\* The Current of TraceparentCtxt<ThreadLocalCtxt> without an active sampled traceparent (10 leaves: id keys pushed on the wrapped context / through the wrapper), observed bare and erased inside with_current.
 SPECIFICATION Spec
 CONSTANTS
     KeyOrder <- MC_KeyOrder
